@@ -124,6 +124,12 @@ func cmdCheck(args []string) int {
 			continue
 		}
 		cfg := *h
+		if cfg.TimeoutS == 0 { // never run away: an unfinished harness is INCONCLUSIVE, not a hang
+			cfg.TimeoutS = 900
+			if *tier == "thorough" {
+				cfg.TimeoutS = 3600
+			}
+		}
 		primary := "cvc5-int"
 		if h.Solver != "" {
 			primary = h.Solver
@@ -248,6 +254,9 @@ func matchKnown(known []KnownFinding, id string, v *Violation) *KnownFinding {
 		k := &known[i]
 		if k.Property != id || k.Status != "open" {
 			continue
+		}
+		if k.Msg == "" {
+			continue // identified by a harness predicate (vKnownFinding), never by "any violation"
 		}
 		if k.Harness != "" && k.Harness != v.Harness {
 			continue
